@@ -63,15 +63,31 @@ Inductive outcome :=
 Definition of_opt (o : option (geom * list Z)) : outcome :=
   match o with Some (t, inds) => Geometry t inds | None => Outside end.
 
+(* the no-table fallback (repo 569e533): a function of (major version, stream type) —
+     if major_version is None or _get_type_from_meta(meta_data) == "nidq": return None[, None]
+     th = trace_header(version=major_version) ...
+   the type is asked only when there is a version (short circuit); is_nidq = None: _get_type_from_meta raised *)
+Definition fallback (v : option IBL.C09.Model.vers) (is_nidq : option bool) : outcome :=
+  match v with
+  | None => NoGeometry
+  | Some v => match is_nidq with
+              | None => Raise
+              | Some true => NoGeometry
+              | Some false => of_opt (geometry_default (gen_of_vers v))
+              end
+  end.
+Definition type_is_nidq (d : IBL.C09.Model.dict) : option bool :=
+  match IBL.C09.Model.get_type d with
+  | None => None
+  | Some (Some IBL.C09.Model.SNidq) => Some true
+  | Some _ => Some false
+  end.
+
 (* geometry_from_meta(meta, return_index=True, sort=sort) *)
 Definition geometry_of_dict (d : IBL.C09.Model.dict) (sort : bool) : outcome :=
   match channel_map d with
   | MapError => Raise
-  | NoKey | Empty =>
-      match IBL.C09.Model.version d with
-      | None => NoGeometry
-      | Some v => of_opt (geometry_default (gen_of_vers v))
-      end
+  | NoKey | Empty => fallback (IBL.C09.Model.version d) (type_is_nidq d)
   | Table e sites =>
       match IBL.C09.Model.version d with
       | None => Raise                     (* CHANNEL_GRID[None]: KeyError *)
